@@ -98,7 +98,31 @@ func run(args []string) {
 		return nil
 	})
 
-	sess, err := interp.Load(interp.LoadOptions{RepoDir: *repo, Pattern: "./" + *pkg, Overlay: overlay, ModFile: modFile, Tags: "verif"})
+	var sess *interp.Session
+	var err error
+	var dropped []string
+	for attempt := 0; attempt < 6; attempt++ {
+		sess, err = interp.Load(interp.LoadOptions{RepoDir: *repo, Pattern: "./" + *pkg, Overlay: overlay, ModFile: modFile, Tags: "verif"})
+		if err == nil {
+			break
+		}
+		// a harness file that no longer type-checks against this tree must not take the others down:
+		// drop the overlay files named in the errors and try again
+		removed := false
+		for path := range overlay {
+			if strings.Contains(err.Error(), path+":") && !strings.Contains(path, "/vx/") {
+				delete(overlay, path)
+				dropped = append(dropped, path)
+				removed = true
+			}
+		}
+		if !removed {
+			break
+		}
+	}
+	for _, d := range dropped {
+		fmt.Fprintln(os.Stderr, "symgo: harness file skipped (does not compile against this tree):", d)
+	}
 	os.RemoveAll(modDir)
 	if err != nil {
 		fmt.Fprintln(os.Stderr, "symgo: load:", err)
